@@ -6,6 +6,7 @@ import (
 	"fmt"
 	"math"
 	"net"
+	"net/netip"
 	"sort"
 	"time"
 
@@ -13,6 +14,7 @@ import (
 
 	"verif/harness/drive"
 	"verif/harness/fw"
+	"verif/harness/gen"
 	"verif/harness/refmatch"
 )
 
@@ -27,6 +29,10 @@ type c15Req struct {
 	rdns      bool
 	delayPerm int
 	reach     bool
+	// slowDest > 0: the destination answers this late (longer than the spacing of the end-to-end probes)
+	slowDest time.Duration
+	// firewall > 0: the router at this TTL rejects UDP probes with destination-unreachable and the destination is silent
+	firewall int
 	// cancelAt >= 0: the caller's context is cancelled this long after the request started (0 = already cancelled)
 	cancelAt time.Duration
 }
@@ -158,7 +164,26 @@ func runC15Case(c *fw.Ctx, id string, rq c15Req) {
 	env.modelFor = func(k int, e *simEnv) *pathModel {
 		// completion order: per-flow base delay chosen by the permutation index
 		base := time.Duration(1+((k*5+rq.delayPerm*3)%7)*9) * time.Millisecond
-		return flowPath(k, e, dist, rq.reach, base)
+		m := flowPath(k, e, dist, rq.reach, base)
+		if rq.slowDest > 0 {
+			m.destDelay = rq.slowDest + time.Duration(k)*time.Millisecond
+		}
+		if rq.firewall > 0 && e.spec.V.Proto == "udp" {
+			m.dist = 0 // the destination never answers
+			for t := rq.firewall; t <= int(e.spec.MaxTTL); t++ {
+				delete(m.hops, t)
+			}
+			if rq.firewall >= int(e.spec.MinTTL) {
+				m.hops[rq.firewall] = &hopSpec{addr: routerAddr(false, k, rq.firewall), delay: 20 * time.Millisecond, build: func(e *simEnv, p *refmatch.Probe, from netip.Addr) []byte {
+					return gen.WrapError(from, e.local, gen.DestUnreach, 13, gen.QuoteBytes(p, 1, "fix"), "min", nil, 0)
+				}}
+			}
+			// probes with a larger TTL are dropped by the firewall as well: it answers every one of them
+			for t := rq.firewall + 1; t <= int(e.spec.MaxTTL); t++ {
+				m.hops[t] = m.hops[rq.firewall]
+			}
+		}
+		return m
 	}
 	env.onFlow = func(k int, e *simEnv) {
 		env.mu.Lock()
@@ -271,6 +296,7 @@ func runC15Case(c *fw.Ctx, id string, rq c15Req) {
 		}
 	}
 	env.judgeRuns(out, tag)
+	checkWireIdentifiers(c, env, tag) // flows that are live at once must be tellable apart on the wire (C11)
 	if rq.rdns {
 		for i := range out.Traceroute.Runs {
 			for _, h := range out.Traceroute.Runs[i].Hops {
